@@ -148,7 +148,7 @@ func GenModule(t *rapid.T, noFail bool) Module {
 			line("%s = [lambda: w for w in [%s, [%s]]]", v, val(), val())
 			vars = append(vars, ModVar{v, "list"})
 		case 12:
-			if ls := of("list", "dict", "set"); len(ls) > 0 {
+			if ls := of("list", "dict", "set"); len(ls) > 0 && vk.Chance(t, 0.5) {
 				x := ls[vk.Uniform(t, len(ls))]
 				meth := map[string][]string{"list": {"append", "extend", "pop"}, "dict": {"update", "setdefault", "clear"}, "set": {"add", "discard"}}[x.Kind]
 				b := fresh("bm")
@@ -156,6 +156,29 @@ func GenModule(t *rapid.T, noFail bool) Module {
 					line("%s = %s.%s", b, x.Name, meth[vk.Uniform(t, len(meth))])
 				} else {
 					line("%s = [%s.%s, (%s.%s,)]", b, x.Name, meth[0], x.Name, meth[len(meth)-1])
+				}
+				vars = append(vars, ModVar{b, "other"})
+			} else {
+				// a bound method whose receiver is reachable through the bound method only
+				b := fresh("bm")
+				recv := []string{"[" + val() + "]", "{\"r\": " + val() + "}", "[[" + atom() + "]]"}[vk.Uniform(t, 3)]
+				meth := "append"
+				if strings.HasPrefix(recv, "{") {
+					meth = []string{"update", "setdefault", "pop"}[vk.Uniform(t, 3)]
+				}
+				switch vk.Uniform(t, 4) {
+				case 0:
+					line("%s = %s.%s", b, recv, meth)
+				case 1:
+					mk := fresh("mkbm")
+					line("def %s():", mk)
+					line("    hidden = %s", recv)
+					line("    return hidden.%s", meth)
+					line("%s = %s()", b, mk)
+				case 2:
+					line("%s = struct(m = %s.%s)", b, recv, meth)
+				case 3:
+					line("%s = {\"m\": (%s.%s,)}", b, recv, meth)
 				}
 				vars = append(vars, ModVar{b, "other"})
 			}
